@@ -278,7 +278,11 @@ CHECKS["C16"] = {
               "connection ids, a real peer connection from the relayed address behind every id, ConnectionAttempt only for permitted "
               "senders, bind succeeds iff known/unbound/owner's user/within 30 s and at most once, unbound connections closed after the "
               "deadline, exact stream equality in both directions, close propagation, 446 on duplicate Connect, and after every step the "
-              "manager's mutexes are free (TryLock probe) and a Binding probe on every control connection is answered."),
+              "manager's mutexes are free (TryLock probe) and a Binding probe on every control connection is answered. Stage client-e2e: pion's "
+              "own client (TCPAllocation.DialTCP / AcceptTCP / TCPConn over a STUNConn control connection) against the real server: generated "
+              "sequences of outbound dials, inbound peer connections (with data the peer sends before the client has bound), writes of 1 B.."
+              "70 kB from either end in generated segmentations with contents that imitate TURN framing, closes from either end and sleeps; "
+              "every relayed connection must deliver exactly the bytes written, in order, and name the right peer."),
     "level_note": _SRV_NOTE + " The lock probe reaches the manager's mutexes by reflection over field types.",
     "technique": "stateful property-based testing (rapid scripts + shrinking) of the real server under virtual time over an in-memory TCP network, reference model of RFC 6062 connection state, lock-at-quiescence probe",
     "rule": "non-trivial = at least one successful ConnectionBind with bytes relayed in both directions and at least one rejected/late/duplicate/unknown operation; distinct by hash of the script",
@@ -287,6 +291,9 @@ CHECKS["C16"] = {
         {"name": "tcpworld", "pkg": "srvworld", "run": "^TestC16$",
          "quick": {"shards": 4, "checks": 2500, "timeout_s": 420},
          "thorough": {"shards": 16, "checks": 10000, "size": 50, "timeout_s": 2400}},
+        {"name": "client-e2e", "pkg": "cliworld", "run": "^TestC16Client$",
+         "quick": {"shards": 4, "checks": 600, "timeout_s": 420},
+         "thorough": {"shards": 16, "checks": 5000, "timeout_s": 2400}},
     ],
 }
 
